@@ -23,7 +23,7 @@ LEVEL_TEXT = ("seeded search over histories of SELECT / INSERT (single, executem
               "per statement, per connection or per engine.  Sampled.")
 LEVEL_NOTE = "SQLite only (ATTACHed schemas); single caller thread; reference = literal-schema rebuild executed with query_cache_size=0"
 TIERS = {
-    "quick": {"runs": 2500, "secs": 30},
+    "quick": {"runs": 5000, "secs": 30},
     "thorough": {"runs": 150000, "secs": 420, "hashseeds": [0, 1]},
 }
 SHRINK = ["hist"]
